@@ -324,7 +324,7 @@ func (c *Ctx) Finish(start time.Time, level string, findings []Finding) int {
 		"level":       level,
 		"wall_s":      time.Since(start).Seconds(),
 		"violations":  len(res.Violations) + len(res.Undecided),
-		"assumptions": c.Trusted,
+		"assumptions": append([]string{"go/types, go/cfg and the repository's own SQL front-end model the constructs they parse; anything they cannot classify is reported as undecided"}, c.Trusted...),
 		"coverage": map[string]any{
 			"obligations":         len(obs),
 			"discharged":          discharged,
